@@ -35,6 +35,14 @@ GridX == [ kf |-> {<<1, 100>>}, kb |-> {<<1, 10>>}, k |-> {<<1, 1>>},
            r |-> {<<1, 1000000000>>}, p |-> {<<0, 1>>}, fr |-> {<<554, 10>>}, fp |-> {<<1, 1000000000>>},
            fv |-> {<<1, 10>>}, n |-> {<<1, 1>>} ]
 TimesX == {<<1, 2>>, <<3, 1>>}
+(* zero slice: every argument for which exactly 0 is legal is 0 somewhere (kb, prod, r, fr, fp; t = t_init *)
+(* is in every slice); p stays positive so that the problem keeps a size                                  *)
+GridZ == [ kf |-> {<<1, 2>>}, kb |-> {<<0, 1>>}, k |-> {<<1, 2>>},
+           prod |-> {<<0, 1>>}, major |-> {<<2, 1>>}, minor |-> {<<1, 1>>},
+           initial_C |-> {<<1, 2>>}, t0 |-> {<<0, 1>>},
+           r |-> {<<0, 1>>, <<1, 1>>}, p |-> {<<1, 2>>}, fr |-> {<<0, 1>>, <<1, 1>>}, fp |-> {<<0, 1>>},
+           fv |-> {<<1, 2>>}, n |-> {<<1, 1>>, <<2, 1>>} ]
+TimesZ == {<<0, 1>>, <<3, 2>>}
 TimesQ == {<<0, 1>>, <<1, 3>>, <<2, 1>>}
 TimesT == {<<0, 1>>, <<1, 3>>, <<2, 1>>, <<5, 1>>}
 B_All == AllBackends
